@@ -1,9 +1,10 @@
 import WS.Props.C03
+import WS.Proofs.ReaderInv
 /-
   C04 — No silent truncation.
 -/
 namespace WS.Props.C04
-open WS WS.Model WS.Spec WS.Props.FrameCodec
+open WS WS.Model WS.Spec WS.Props.FrameCodec WS.Proofs.ReaderInv
 
 variable (inf : Inflate) (cfg : RCfg) (limits : List Int)
 
@@ -12,19 +13,169 @@ is backed by a completely received data frame with FIN set. -/
 theorem msgs_le_fins (st : RState) (fs : List Frame) (tl : Tail) :
     ((runReader inf cfg limits st fs tl).filter isMsg).length ≤
       (fs.filter (fun f => f.h.fin && isData f.h.opcode)).length := by
-  sorry
+  have hq : ∀ l : List Ev, (∀ ev ∈ l, Quiet ev) → (l.filter isMsg).length = 0 := by
+    intro l hl; rw [filter_isMsg_quiet l hl]; rfl
+  have hdata : ∀ st h d evs o, dataStep inf cfg limits st h d = (evs, o) → (evs.filter isMsg).length = 0 := by
+    intro st h d evs o hd
+    have := dataStep_quiet inf cfg limits st h d
+    rw [hd] at this
+    exact hq _ this
+  have hmono : ∀ (f : Frame) (rest : List Frame),
+      (rest.filter (fun f => f.h.fin && isData f.h.opcode)).length ≤
+        ((f :: rest).filter (fun f => f.h.fin && isData f.h.opcode)).length := by
+    intro f rest
+    rw [List.filter_cons]
+    split
+    · simp only [List.length_cons]; omega
+    · exact Nat.le_refl _
+  refine runReader_induct inf cfg limits
+    (fun _ fs out => (out.filter isMsg).length ≤ (fs.filter (fun f => f.h.fin && isData f.h.opcode)).length)
+    ?_ ?_ ?_ ?_ ?_ ?_ ?_ ?_ ?_ fs st tl
+  · intro st fs why _ _
+    rw [hq _ (stopIn_quiet inf cfg limits st why)]
+    exact Nat.zero_le _
+  · intro st h d evs hd
+    rw [hdata _ _ _ _ _ hd]
+    exact Nat.zero_le _
+  · intro st h d evs st' hd
+    rw [List.filter_append, List.length_append, hdata _ _ _ _ _ hd, hq _ (stopIn_quiet inf cfg limits st' .io)]
+    exact Nat.zero_le _
+  · intro st f rest r _ ih
+    have : (List.filter isMsg (Ev.reply opPong f.data :: r)) = List.filter isMsg r := by
+      rw [List.filter_cons]; rfl
+    rw [this]
+    exact Nat.le_trans ih (hmono f rest)
+  · intro st f rest r _ _ ih
+    exact Nat.le_trans ih (hmono f rest)
+  · intro st f rest evs _ _ hd
+    rw [hdata _ _ _ _ _ hd]
+    exact Nat.zero_le _
+  · intro st f rest evs st' evs2 _ _ hd _ hf
+    rw [List.filter_append, List.length_append, hdata _ _ _ _ _ hd,
+      hq _ (finishMsg_none_quiet inf cfg limits st' evs2 hf)]
+    exact Nat.zero_le _
+  · intro st f rest evs st' evs2 st'' r _ hdat hd hfin hf ih
+    have h2 : (evs2.filter isMsg).length ≤ 1 := by
+      rcases finishMsg_some inf cfg limits st' evs2 st'' hf with rfl | ⟨typ, out, rfl⟩
+      · exact Nat.zero_le _
+      · exact Nat.le_refl _
+    have h3 : ((f :: rest).filter (fun f => f.h.fin && isData f.h.opcode)).length =
+        (rest.filter (fun f => f.h.fin && isData f.h.opcode)).length + 1 := by
+      rw [List.filter_cons]
+      simp only [hfin, hdat, Bool.and_self, if_true, List.length_cons]
+    rw [List.filter_append, List.filter_append, List.length_append, List.length_append,
+      hdata _ _ _ _ _ hd, h3]
+    omega
+  · intro st f rest evs st' r _ _ hd hfin ih
+    rw [List.filter_append, List.length_append, hdata _ _ _ _ _ hd]
+    have := hmono f rest
+    omega
 
 /-- whatever is left after the last complete frame never completes a message, and reading it fails. -/
 theorem tail_never_completes (st : RState) (tl : Tail) :
     (∀ ev ∈ runReader inf cfg limits st [] tl, isMsg ev = false) ∧
     (∃ ev ∈ runReader inf cfg limits st [] tl, isFailure ev = true) := by
-  sorry
+  have key := runReader_induct inf cfg limits
+    (fun _ fs out => fs = [] → (∀ ev ∈ out, isMsg ev = false) ∧ (∃ ev ∈ out, isFailure ev = true))
+    (by
+      intro st fs why _ _ _
+      exact ⟨fun ev hev => quiet_not_msg ev (stopIn_quiet inf cfg limits st why ev hev),
+        stopIn_failure inf cfg limits st why⟩)
+    (by
+      intro st h d evs hd _
+      refine ⟨fun ev hev => quiet_not_msg ev ?_, dataStep_none_failure inf cfg limits st h d evs hd⟩
+      have := dataStep_quiet inf cfg limits st h d
+      rw [hd] at this
+      exact this ev hev)
+    (by
+      intro st h d evs st' hd _
+      rw [dataStep_some_nil inf cfg limits st h d evs st' hd, List.nil_append]
+      exact ⟨fun ev hev => quiet_not_msg ev (stopIn_quiet inf cfg limits st' .io ev hev),
+        stopIn_failure inf cfg limits st' .io⟩)
+    (by intro _ _ _ _ _ _ h; cases h)
+    (by intro _ _ _ _ _ _ _ h; cases h)
+    (by intro _ _ _ _ _ _ _ h; cases h)
+    (by intro _ _ _ _ _ _ _ _ _ _ _ h; cases h)
+    (by intro _ _ _ _ _ _ _ _ _ _ _ _ _ _ h; cases h)
+    (by intro _ _ _ _ _ _ _ _ _ _ _ h; cases h)
+    [] st tl
+  exact key rfl
 
 /-- unmasking commutes with taking a prefix: the bytes available before a cut unmask to a prefix
 of the frame's data. -/
 theorem data_prefix (f : Frame) (k : Nat) :
     (if f.h.masked then xorKey f.h.key (f.payload.take k) else f.payload.take k) = f.data.take k := by
-  sorry
+  unfold Frame.data
+  split
+  · unfold xorKey
+    exact xorKeyFrom_take _ _ _ _
+  · rfl
+
+/-- helper for `cut_valid_stream`: reading the cut frame `f` in the reference state. -/
+theorem cut_tail_run (L : Int) (hL : cfg.limit = L) (dict : Bytes) (idx : Nat) (q : Pending)
+    (f : Frame) (post : List Frame) (m : Nat) (hv : ValidSeq cfg L q (f :: post)) :
+    ∃ final, runReader inf cfg [] (stateOf L dict idx q) [] (cutTail f m) = [final] ∧
+      (final = .fail .io ∨
+        ∃ typ avail, final = .partialMsg typ avail .io false ∧
+          ∃ full, avail <+: full ∧
+            (match (generalizing := false) q with
+             | none => full = f.data
+             | some (_, acc) => full = acc ++ f.data)) := by
+  have hstop : ∃ final, stopIn inf cfg [] (stateOf L dict idx q) .io = [final] ∧
+      (final = .fail .io ∨
+        ∃ typ avail, final = .partialMsg typ avail .io false ∧
+          ∃ full, avail <+: full ∧
+            (match (generalizing := false) q with
+             | none => full = f.data
+             | some (_, acc) => full = acc ++ f.data)) := by
+    refine ⟨_, stopIn_stateOf_io inf cfg [] L dict idx q, ?_⟩
+    cases q with
+    | none => exact Or.inl rfl
+    | some ta =>
+      obtain ⟨typ, acc⟩ := ta
+      exact Or.inr ⟨typ, acc, rfl, acc ++ f.data, List.prefix_append _ _, rfl⟩
+  obtain ⟨hok, hr1, hncl, hdat, _⟩ := hv
+  have hc : headerCheck cfg f.h = none := (WS.Props.C03.headerCheck_iff cfg f.h).mpr hok
+  unfold cutTail
+  split
+  · rw [runReader]; exact hstop
+  · rw [runReader, hc]
+    dsimp only
+    split
+    · exact hstop
+    · next hctl =>
+      rw [data_prefix]
+      have hle : f.h.opcode ≤ 2 := by
+        obtain ⟨_, _, _, _, hop, _⟩ := hok
+        rcases hop with h | h | h | h | h | h <;> rw [h] at hctl ⊢ <;> first | omega | (exact absurd rfl hctl)
+      have hlen : (f.data.take (m - (encodeHeader f.h).length)).length ≤ f.data.length := by
+        simp only [List.length_take]; omega
+      have hdat := hdat hle
+      cases q with
+      | none =>
+        obtain ⟨hop, hfit⟩ := hdat
+        have hnc : (f.h.opcode == opCont) = false := by
+          rcases hop with h | h <;> rw [h] <;> decide
+        obtain ⟨n', e⟩ := dataStep_idle_fit inf cfg [] (stateOf L dict idx none) f.h
+          (f.data.take (m - (encodeHeader f.h).length)) rfl hnc hr1 (by
+            rw [limitFor_nil, hL]
+            unfold allowance
+            split
+            · left; omega
+            · right; omega)
+        rw [e]
+        refine ⟨_, rfl, Or.inr ⟨_, _, rfl, f.data, List.take_prefix _ _, rfl⟩⟩
+      | some ta =>
+        obtain ⟨typ, acc⟩ := ta
+        obtain ⟨hop, hfit⟩ := hdat
+        obtain ⟨n', e⟩ := dataStep_plain_fit inf cfg [] (stateOf L dict idx (some (typ, acc))) f.h
+          (f.data.take (m - (encodeHeader f.h).length)) typ acc _ rfl hop (by
+            split
+            · left; omega
+            · right; omega)
+        rw [e]
+        refine ⟨_, rfl, Or.inr ⟨_, _, rfl, acc ++ f.data, ?_, rfl⟩⟩
+        exact (List.prefix_append_right_inj acc).mpr (List.take_prefix _ _)
 
 /-- **cut inside a valid uncompressed stream**: the stream `pre ++ [f] ++ post` is cut after `m`
 bytes of frame `f`.  Every message completed by `pre` is delivered intact (the reference events of
@@ -40,13 +191,38 @@ theorem cut_valid_stream (L : Int) (hL : cfg.limit = L) (pre post : List Frame) 
             (match (specRun none pre).2 with
              | none => full = f.data
              | some (_, acc) => full = acc ++ f.data)) := by
-  sorry
+  have hwfpre : ∀ g ∈ pre, Frame.WF g := fun g hg => hwf g (List.mem_append_left _ hg)
+  have hwff : Frame.WF f := hwf f (by simp)
+  obtain ⟨hvpre, hvf⟩ := validSeq_append cfg L none pre (f :: post) hv
+  have hrun := WS.Props.C03.valid_run inf cfg L hL none [] 0 pre (cutTail f m) hvpre
+  obtain ⟨final, hfinal, hprop⟩ := cut_tail_run inf cfg L hL []
+    (0 + (pre.filter (fun f => f.h.opcode == opText || f.h.opcode == opBinary)).length)
+    (specRun none pre).2 f post m hvf
+  refine ⟨final, ?_, hprop⟩
+  unfold readStream
+  rw [parse_cut pre f m hwfpre hwff hm0 hm]
+  dsimp only
+  rw [← hfinal]
+  exact hrun
 
 /-- cut exactly at a frame boundary. -/
 theorem cut_at_boundary (L : Int) (hL : cfg.limit = L) (pre post : List Frame)
     (hwf : ∀ g ∈ pre ++ post, Frame.WF g) (hv : ValidSeq cfg L none (pre ++ post)) :
     ∃ final, readStream inf cfg [] (encodeAll pre) = (specRun none pre).1 ++ [final] ∧
       (final = .fail .io ∨ ∃ typ acc, final = .partialMsg typ acc .io false ∧ (specRun none pre).2 = some (typ, acc)) := by
-  sorry
+  have hwfpre : ∀ g ∈ pre, Frame.WF g := fun g hg => hwf g (List.mem_append_left _ hg)
+  obtain ⟨hvpre, _⟩ := validSeq_append cfg L none pre post hv
+  have hrun := WS.Props.C03.valid_run inf cfg L hL none [] 0 pre .clean hvpre
+  rw [runReader, stopIn_stateOf_io] at hrun
+  unfold readStream
+  rw [parse_encodeAll pre hwfpre]
+  dsimp only
+  refine ⟨_, hrun, ?_⟩
+  generalize (specRun none pre).2 = q
+  cases q with
+  | none => exact Or.inl rfl
+  | some ta =>
+    obtain ⟨typ, acc⟩ := ta
+    exact Or.inr ⟨typ, acc, rfl, rfl⟩
 
 end WS.Props.C04
